@@ -257,20 +257,108 @@ def sorted_(ex, v, key=None, reverse=False):
 # combinators
 # =============================================================================================
 
-def comb_key(ex, bound, value):
-    """Canonical text of a symbolic element function: the term with the bound symbols renamed."""
+_AC_KINDS = None
+
+
+def canon_text(t, cache=None):
+    """Text of a term that does not depend on z3's argument order for commutative operators (which follows term
+    creation order): children of and / or / + / * / = / distinct are sorted by their own canonical text."""
+    global _AC_KINDS
+    if _AC_KINDS is None:
+        _AC_KINDS = {z3.Z3_OP_AND, z3.Z3_OP_OR, z3.Z3_OP_ADD, z3.Z3_OP_MUL, z3.Z3_OP_EQ, z3.Z3_OP_DISTINCT, z3.Z3_OP_IFF}
+    import os as _os
+    if _os.environ.get('PYVC_NO_CANON'):
+        return t.sexpr()
+    if cache is None:
+        cache = {}
+    i = t.get_id()
+    r = cache.get(i)
+    if r is not None:
+        return r
+    if z3.is_quantifier(t):
+        r = ('A' if t.is_forall() else 'E') + '[' + ','.join(str(t.var_sort(j)) for j in range(t.num_vars())) + ':' + canon_text(t.body(), cache) + ']'
+    elif z3.is_app(t) and t.num_args() > 0:
+        d = t.decl()
+        kids = t.children()
+        if d.kind() in (z3.Z3_OP_SEQ_CONCAT, z3.Z3_OP_AND, z3.Z3_OP_OR, z3.Z3_OP_ADD, z3.Z3_OP_MUL):
+            # associative: nested applications of the same operator are flattened (as z3's own printer does)
+            flat = []
+            work = list(kids)
+            while work:
+                c = work.pop(0)
+                if z3.is_app(c) and c.num_args() > 0 and c.decl().kind() == d.kind() and c.sort().eq(t.sort()):
+                    work = c.children() + work
+                else:
+                    flat.append(c)
+            kids = flat
+        args = [canon_text(c, cache) for c in kids]
+        if d.kind() in _AC_KINDS:
+            args.sort()
+        ps = ''
+        try:
+            ps = ','.join(str(p) for p in d.params())
+        except Exception:
+            ps = ''
+        r = '(' + d.name() + (('{' + ps + '}') if ps else '') + ' ' + ' '.join(args) + ')'
+    else:
+        r = t.sexpr()
+    cache[i] = r
+    return r
+
+
+class PFn:
+    """A combinator symbol applied to the enclosing comprehension variables it captures: F(seq, *captured).  Captured
+    variables are explicit arguments, so the SAME element function evaluated twice (fresh bound-variable names each
+    time) gets the same symbol, and different captured values give different applications of it."""
+
+    def __init__(self, F, frees):
+        self.F = F
+        self.frees = list(frees)
+
+    def __call__(self, st):
+        return self.F(st, *self.frees)
+
+    def name(self):
+        import hashlib
+        if not self.frees:
+            return self.F.name()
+        return self.F.name() + '_' + hashlib.sha256('|'.join(f.sexpr() for f in self.frees).encode()).hexdigest()[:8]
+
+    def eq(self, other):
+        return isinstance(other, PFn) and self.F.eq(other.F) and len(self.frees) == len(other.frees) and \
+            all(z3.eq(a, b) for a, b in zip(self.frees, other.frees))
+
+    def __str__(self):
+        return self.name()
+
+
+def captured_locals(bound, *terms):
+    """enclosing comprehension / fold variables occurring in the terms, other than the combinator's own bound ones"""
+    frees = []
+    seen = set()
+    for t in terms:
+        if t is not None:
+            _free_locals(t, frees, seen)
+    own = [b.t for b in bound]
+    return [f for f in frees if not any(z3.eq(f, o) for o in own)]
+
+
+def comb_key(ex, bound, value, frees=()):
+    """Canonical text of a symbolic element function: the term with the bound symbols (and the captured enclosing
+    variables, which become explicit arguments of the combinator symbol) renamed."""
     if isinstance(value, Sym):
         t = value.t
     elif isinstance(value, tuple):
-        return 'T(' + ','.join(comb_key(ex, bound, x) for x in value) + ')'
+        return 'T(' + ','.join(comb_key(ex, bound, x, frees) for x in value) + ')'
     elif isinstance(value, (bool, int, str)) or value is None:
         return f'C{value!r}'
     else:
         raise OutOfSubset(f'element value {value!r} in combinator')
     subs = [(b.t, z3.Const(f'BV{i}_{b.kind.name}', b.kind.sort())) for i, b in enumerate(bound)]
+    subs += [(f, z3.Const(f'FV{i}', f.sort())) for i, f in enumerate(frees)]
     t2 = z3.substitute(t, *subs)
     import hashlib
-    return hashlib.sha256(t2.sexpr().encode()).hexdigest()[:12]
+    return hashlib.sha256(canon_text(t2).encode()).hexdigest()[:12]
 
 
 class Lam:
@@ -538,27 +626,57 @@ def filter_map(ex, s, lam):
     run = ex.run
     k = s.kind
     out_kind = K.Seq(lam.value.kind)
-    key = comb_key(ex, lam.bound, lam.value) + '_' + (comb_key(ex, lam.bound, Sym(K.Bool, lam.guard)) if lam.guard is not None else 'all')
-    f = P.ufn(f'fm_{k.name}_{out_kind.name}_{key}', [k.sort()], out_kind.sort())
-    reg = run.ghost.setdefault('_combs', {})
-    reg[str(f)] = (f, lam, k, out_kind)
+    vterms = [lam.value.t] if isinstance(lam.value, Sym) else []
+    frees = captured_locals(lam.bound, *(vterms + ([lam.guard] if lam.guard is not None else [])))
+    key = comb_key(ex, lam.bound, lam.value, frees) + '_' + (comb_key(ex, lam.bound, Sym(K.Bool, lam.guard), frees) if lam.guard is not None else 'all')
+    f = PFn(P.ufn(f'fm_{k.name}_{out_kind.name}_{key}', [k.sort()] + [x.sort() for x in frees], out_kind.sort()), frees)
+    if frees:
+        # remembered so that a fold / comprehension that later substitutes its bound variable can re-instantiate
+        # the defining axioms at the substituted term (see reinstantiate_captured)
+        run.ghost.setdefault('_captured', []).append((f, lam, k, out_kind, s.t))
     r = f(s.t)
-    instantiate_fm(ex, f, lam, k, out_kind, s.t)
-    # extensionality: two filter-maps over the same sequence that agree element-wise are equal
+    register_fm_app(ex, f, lam, k, out_kind, s.t)
+    return Sym(out_kind, r)
+
+
+def register_fm_app(ex, f, lam, k, out_kind, st):
+    """defining axioms of the application f(st) + extensionality against the other filter-maps over the same sequence"""
+    run = ex.run
     apps = run.ghost.setdefault('_fm_apps', [])
+    # (re-)instantiate: later calls may see more known snoc forms of st than the first one did
+    instantiate_fm(ex, f, lam, k, out_kind, st)
     for (f2, lam2, st2, ok2) in apps:
-        if f2.eq(f) or not z3.eq(st2, s.t) or ok2 != out_kind:
+        if f2.eq(f) and z3.eq(st2, st):
+            return
+    for (f2, lam2, st2, ok2) in apps:
+        if f2.eq(f) or not z3.eq(st2, st) or ok2 != out_kind:
             continue
         sk = run.fresh(K.Int, 'ext_sk')
-        e = s.t[sk.t]
+        e = st[sk.t]
         v1, g1 = lam.at(ex, e)
         v2, g2 = lam2.at(ex, e)
         g1 = g1 if g1 is not None else z3.BoolVal(True)
         g2 = g2 if g2 is not None else z3.BoolVal(True)
         agree = z3.And(g1 == g2, z3.Implies(g1, v1 == v2))
-        run.axiom(z3.Or(f(s.t) == f2(s.t), z3.And(sk.t >= 0, sk.t < z3.Length(s.t), z3.Not(agree))))
-    apps.append((f, lam, s.t, out_kind))
-    return Sym(out_kind, r)
+        run.axiom(z3.Or(f(st) == f2(st), z3.And(sk.t >= 0, sk.t < z3.Length(st), z3.Not(agree))))
+    apps.append((f, lam, st, out_kind))
+
+
+def reinstantiate_captured(ex, subs):
+    """A combinator whose element function captured an enclosing bound variable was defined at that variable; when the
+    enclosing construct substitutes the variable (fold unfolding at a concrete element), the inner combinator
+    application at the substituted term needs its own defining axioms."""
+    run = ex.run
+    vars_ = [a for a, _ in subs]
+    for (f, lam, k, out_kind, st) in list(run.ghost.get('_captured', [])):
+        if not any(any(z3.eq(fr, v) for v in vars_) for fr in f.frees):
+            continue
+        if not isinstance(lam.value, Sym):
+            continue
+        f2 = PFn(f.F, [z3.substitute(fr, *subs) for fr in f.frees])
+        lam2 = Lam(lam.bound, Sym(lam.value.kind, z3.substitute(lam.value.t, *subs)),
+                   z3.substitute(lam.guard, *subs) if lam.guard is not None else None)
+        register_fm_app(ex, f2, lam2, k, out_kind, z3.substitute(st, *subs))
 
 
 def instantiate_fm_base(ex, f, lam, k, out_kind, st):
@@ -583,6 +701,10 @@ def instantiate_fm(ex, f, lam, k, out_kind, st):
         if g is None:
             # remember the snoc form of r so that combinators applied to r can unfold as well
             run.ghost.setdefault('_snoc', {})[r.sexpr()] = (f(a), vt)
+            instantiate_fm_base(ex, f, lam, k, out_kind, a)
+        else:
+            # guarded snoc: r == f(a) ++ [v] if g else f(a)
+            run.ghost.setdefault('_gsnoc', {})[r.sexpr()] = (g, f(a), vt)
             instantiate_fm_base(ex, f, lam, k, out_kind, a)
     # element-wise characterisation
     i = z3.Int('fm_i')
@@ -657,6 +779,13 @@ def seq_to_dict(ex, pairs, _inner=False):
     run.axiom(z3.Implies(n == 0, m.t == P.empty_map(ex, mk).t))
     # snoc unfolding: dict(ps ++ [(k, v)]) == (d := dict(ps); d[k] = v)
     if not _inner:
+        gs = run.ghost.get('_gsnoc', {}).get(pairs.t.sexpr())
+        if gs is not None:
+            # pairs == a ++ [e] if g else a   (guarded snoc of a filter-map):  dict(pairs) follows the same case split
+            g_, a_, e_ = gs
+            da = run.cell(seq_to_dict(ex, Sym(pairs.kind, a_), _inner=True)).sym
+            step = P.map_store(ex, da, Sym(tk.items[0], tk.get(e_, 0)), Sym(tk.items[1], tk.get(e_, 1)))
+            run.axiom(z3.If(g_, m.t == step.t, m.t == da.t))
         for (a, e) in snoc_decompositions(pairs.t, run):
             da = run.cell(seq_to_dict(ex, Sym(pairs.kind, a), _inner=True)).sym
             step = P.map_store(ex, da, Sym(tk.items[0], tk.get(e, 0)), Sym(tk.items[1], tk.get(e, 1)))
@@ -872,17 +1001,20 @@ def seq_fold(ex, fn, init, xs):
     res = merge_eval(ex, lambda: ex.call(fn, [a, x], {}))
     val, rc = merged_value(ex, res, acc_kind)
     # a step that raises makes the fold undefined there: the defining equation is only given where it does not
-    key = comb_key(ex, [a, x], val)
     it = P.lift(ex, init, acc_kind)
+    frees = captured_locals([a, x], val.t, it, rc)
+    key = comb_key(ex, [a, x], val, frees)
     import hashlib
-    key += '_' + hashlib.sha256(it.sexpr().encode()).hexdigest()[:8]
-    f = P.ufn(f'fold_{s.kind.name}_{acc_kind.name}_{key}', [s.kind.sort()], acc_kind.sort())
+    it_c = z3.substitute(it, *[(f_, z3.Const(f'FV{i}', f_.sort())) for i, f_ in enumerate(frees)]) if frees else it
+    key += '_' + hashlib.sha256(canon_text(it_c).encode()).hexdigest()[:8]
+    f = PFn(P.ufn(f'fold_{s.kind.name}_{acc_kind.name}_{key}', [s.kind.sort()] + [x_.sort() for x_ in frees], acc_kind.sort()), frees)
     r = f(s.t)
 
     def inst(st):
         run.axiom(z3.Implies(z3.Length(st) == 0, f(st) == it))
         for (pre, e) in snoc_decompositions(st, run):
             stepped = z3.substitute(val.t, (a.t, f(pre)), (x.t, e))
+            reinstantiate_captured(ex, [(a.t, f(pre)), (x.t, e)])
             if rc is not None:
                 run.axiom(z3.Implies(z3.Not(z3.substitute(rc, (a.t, f(pre)), (x.t, e))), f(st) == stepped))
             else:
@@ -922,7 +1054,7 @@ def name_formula(ex, formula):
     frees = []
     _free_locals(formula, frees, set())
     canon = z3.substitute(formula, *[(f, z3.Const(f'FV{k}', f.sort())) for k, f in enumerate(frees)]) if frees else formula
-    key = hashlib.sha256(z3.simplify(canon).sexpr().encode()).hexdigest()[:12]
+    key = hashlib.sha256(canon_text(z3.simplify(canon)).encode()).hexdigest()[:12]
     pred = P.ufn(f'qf_{key}', [f.sort() for f in frees], z3.BoolSort())
     app = pred(*frees) if frees else pred()
     defs = run.ghost.get('_qdefs')
